@@ -96,6 +96,8 @@ def main():
                     r['errors'].append(type(e).__name__ + ': ' + str(e)[:200])
             r['warnings'] = h.kinds
             r['t_max'] = float(coal.tree_height.t_max)
+            # size of the block-counting space (read AFTER the operations, so that it does not alter their history)
+            r['k_bc'] = int(coal.block_counting_state_space.k) if case.get('want_k_bc') else None
         except Exception as e:
             r['error'] = type(e).__name__ + ': ' + str(e)[:300]
         out.append(r)
